@@ -36,14 +36,22 @@ func genValidRecord(r *rand.Rand) genRecord {
 	default:
 		body = ""
 	}
+	lateType := ""
 	if r.Intn(12) == 0 {
+		if r.Intn(3) == 0 && g.rt&(1|2|4|8|16|64) != 0 {
+			lateType = typeNames[g.rt] // NewRecordBuilder(0) followed by AddWarcHeader(WARC-Type, a known type)
+		}
 		g.rt = 0 // unknown record type
 	}
 	g.body = []byte(body)
 	g.fields = append(g.fields, [2]string{"WARC-Date", "2021-05-06T07:08:09Z"})
 	g.fields = append(g.fields, [2]string{"Content-Type", ctype})
 	if g.rt == 0 {
-		g.fields = append(g.fields, [2]string{"WARC-Type", "myowntype"})
+		if lateType != "" {
+			g.fields = append(g.fields, [2]string{"WARC-Type", lateType})
+		} else {
+			g.fields = append(g.fields, [2]string{"WARC-Type", "myowntype"})
+		}
 	}
 	if g.rt == 32 {
 		g.fields = append(g.fields, [2]string{"WARC-Profile", gowarc.ProfileIdenticalPayloadDigestV1_1}, [2]string{"WARC-Payload-Digest", "sha1:AAAAAAAAAAAAAAAAAAAAAAAAAAAAAAAA"})
